@@ -35,7 +35,7 @@ Dec(s, t, i) == s.eps[i].available -- t.eps[i].available
 RECURSIVE SumDec(_, _, _)
 SumDec(s, t, i) == IF i = 0 THEN Zero ELSE Dec(s, t, i) ++ SumDec(s, t, i - 1)
 
-\* `after` = indices of the epochs that started after u bonded
+\* `after` = indices of the epochs that did not start before u bonded
 ClaimChecks(s, u, t, payout, after) ==
   << <<"C09.claim.same-epochs", NEp(t) = NEp(s)>>,
      <<"C09.claim.only-decreases-available", \A i \in 1 .. NEp(s) : Zero \preceq Dec(s, t, i)>>,
